@@ -1785,7 +1785,10 @@ class Node(SimComponent, ABC):
             if self.software_manager.software.get(application_name):
                 self.sys_log.info(f"Can't install {application_name}. It's already installed.")
                 return RequestResponse(status="success", data={"reason": "already installed"})
-            application_class = Application._registry[application_name]
+            application_class = Application._registry.get(application_name)
+            if application_class is None:
+                self.sys_log.warning(f"Can't install {application_name}. It is not a known application.")
+                return RequestResponse(status="failure", data={"reason": f"unknown application {application_name}"})
             self.software_manager.install(application_class)
             application_instance = self.software_manager.software.get(application_name)
             self.applications[application_instance.uuid] = application_instance
